@@ -330,6 +330,26 @@ func checkK4(c *Ctx, jr *joinRoles) {
 			}
 		}
 	}
+	// every assignment of the buffer field extends it, empties it, or gives it a fresh slice: a slice
+	// that came from outside (a received input slice adopted as the buffer, say) is memory its
+	// producer may still write and a consumer may still hold
+	for _, fn := range jr.rt.Funcs {
+		for _, b := range fn.Blocks {
+			for _, in := range b.Instrs {
+				st, ok := fieldStore(in, "join")
+				if !ok {
+					continue
+				}
+				if _, isIngest := p.ingestOf(in); isIngest || p.isReset(in) {
+					continue
+				}
+				if xs := p.SymX(st.Val); xs.Op == "make" && strings.HasPrefix(xs.Name, "slice#") {
+					continue
+				}
+				problems = append(problems, "the buffer field is assigned "+p.Sym(st.Val).String()+" at "+p.InstrPos(in)+" (neither append to it, nor emptied, nor freshly made): it then shares memory with a slice owned by someone else")
+			}
+		}
+	}
 	// the buffer is this instance's alone: its address is used only to load and store the field,
 	// and what the constructor puts there is freshly made (nothing recycled from a pool, nothing
 	// another instance or a consumer may still hold)
